@@ -474,6 +474,7 @@ def run_property(prop: str, tier: str, base_seed: int, workers: int, budget_s: f
     # runs of one worker process (a cache on a class, a module-level list) a violating run need not
     # reproduce from a clean process; only a candidate that does is reported.
     reported = 0
+    unreproducible = []
     by_sig = {}
     for d, v in agg["violations"]:
         by_sig.setdefault(v["sig"], []).append((d, v))
@@ -534,10 +535,16 @@ def run_property(prop: str, tier: str, base_seed: int, workers: int, budget_s: f
                     reported += 1
                     done = True
         if not done:
-            print(f"HARNESS-ERROR property={prop} violation {sig} was seen in {len(by_sig[sig])} runs but none of the "
-                  f"{tried} tried reproduces from a clean process (state leaking between runs / nondeterminism)")
-            write_evidence(spec, tier, base_seed, agg, wall, 0, harness_error=True)
-            return 2
+            unreproducible.append((sig, len(by_sig[sig]), tried))
+    if unreproducible and not reported:
+        sig, n_seen, tried = unreproducible[0]
+        print(f"HARNESS-ERROR property={prop} violation {sig} was seen in {n_seen} runs but none of the "
+              f"{tried} tried reproduces from a clean process (state leaking between runs / nondeterminism)")
+        write_evidence(spec, tier, base_seed, agg, wall, 0, harness_error=True)
+        return 2
+    for sig, n_seen, tried in unreproducible:
+        print(f"note: {sig} was also seen in {n_seen} runs of this batch but did not reproduce from a clean process; "
+              f"not reported")
     for sig, n in agg["known_hits"].items():
         k = [x for x in known["findings"] if x["sig"] == sig][0]
         print(f"KNOWN-FINDING: property={prop} {k['what']} (seen in {n} runs)")
